@@ -91,6 +91,21 @@ func (h *holeDB) Exist(k []byte) (bool, error) {
 	return h.MemDB.Exist(k)
 }
 
+// NewBatch returns a batch that copies keys and values, as every engine-backed
+// batch of libs/db does. (libs/db's memBatch keeps the caller's slices, and
+// trie.Database.Cap / secureKey reuse their key buffers: over a raw MemDB
+// flushed nodes land under wrong keys. That defect is shown by its own
+// scenario, opCapOverRawMemDB; the histories run over a disk that behaves like
+// the production engines.)
+func (h *holeDB) NewBatch() dbm.Batch { return copyBatch{h.MemDB.NewBatch()} }
+
+type copyBatch struct{ dbm.Batch }
+
+func (b copyBatch) Set(k, v []byte) {
+	b.Batch.Set(append([]byte{}, k...), append([]byte{}, v...))
+}
+func (b copyBatch) Delete(k []byte) { b.Batch.Delete(append([]byte{}, k...)) }
+
 // ---------------------------------------------------------------- trie handle
 
 // handle hides the small API differences between Trie and SecureTrie.
@@ -297,6 +312,7 @@ type sim struct {
 	maxKeys                int
 	unloadedReads, nProofs int
 	valSeq                 int
+	rawCapDone             bool
 }
 
 func (s *sim) violate(class, what, format string, a ...interface{}) bool {
@@ -340,15 +356,22 @@ func run(c *kernel.Ctx) {
 	if c.Tier == kernel.Thorough {
 		nsteps = s.cfg.Range(100, 700)
 	}
-	base := []int{34, 7, 7, 18, 5, 8, 4, 2, 4, 2, 2, 3, 2}
+	base := []int{34, 5, 5, 18, 5, 8, 4, 2, 4, 1, 2, 3, 2, 0, 4}
 	w := make([]int, len(base))
 	for i := range base {
 		w[i] = base[i] * []int{1, 1, 2, 3, 0}[s.cfg.Int(5)]
 	}
 	w[0] += 6
 	w[5] += 2
+	if s.cfg.Bool(1, 8) {
+		w[13] = 2
+	}
 
 	site, msg, p := kernel.Try(func() {
+		// some runs start from a populated trie
+		for n := s.cfg.Pick(3, 3, 2, 1) * s.cfg.Range(3, 12); n > 0 && !s.stop; n-- {
+			s.opUpdate()
+		}
 		for s.step = 0; s.step < nsteps && !s.stop; s.step++ {
 			c.Event(1)
 			switch s.ops.Pick(w...) {
@@ -378,6 +401,12 @@ func run(c *kernel.Ctx) {
 				s.checkpoint(false)
 			case 12:
 				s.opMissingNode()
+			case 13:
+				s.opCapOverRawMemDB()
+			case 14:
+				for n := s.ops.Range(3, 12); n > 0 && !s.stop; n-- {
+					s.opUpdate()
+				}
 			}
 		}
 		if !s.stop {
@@ -710,4 +739,48 @@ func (s *sim) checkAllGets(where string) bool {
 		}
 	}
 	return false
+}
+
+// opCapOverRawMemDB: the current content in a second trie over a RAW MemDB,
+// committed, flushed with Cap(0) and reopened. Nothing may be lost.
+func (s *sim) opCapOverRawMemDB() {
+	if s.rawCapDone || len(s.m) == 0 {
+		return
+	}
+	s.rawCapDone = true
+	s.tracef("side scenario: same content over a raw MemDB, Commit, Cap(0), New(root)")
+	s.c.Probe("cap-over-raw-memdb")
+	db := trie.NewDatabase(dbm.NewMemDB())
+	h, err := openTrie(s.secure, common.EmptyHash, db, 0)
+	if err != nil {
+		return
+	}
+	for _, k := range s.m.keys() {
+		h.update([]byte(k), s.m[k])
+	}
+	root, err := h.commit()
+	if err != nil {
+		s.violate("lookup", "commit/error", "Commit failed: %v", err)
+		return
+	}
+	if err := db.Cap(0); err != nil {
+		s.violate("lookup", "flush/error", "TrieDB.Cap failed: %v", err)
+		return
+	}
+	s.c.Evals(1)
+	h2, err := openTrie(s.secure, root, db, 0)
+	if err == nil {
+		for _, k := range s.m.keys() {
+			var v []byte
+			if v, err = h2.get([]byte(k)); err != nil || !bytes.Equal(v, s.m[k]) {
+				break
+			}
+		}
+	}
+	if err != nil {
+		// one stable key for this defect, independent of plain/secure
+		if s.c.Violate("lookup", "c10/cap-over-memdb/nodes-lost", "step %d: %d keys committed to a trie.Database over a raw MemDB; after TrieDB.Cap(0) the root %x cannot be read back: %v", s.step, len(s.m), root, err) {
+			s.stop = true
+		}
+	}
 }
